@@ -137,6 +137,13 @@ fn main() {
         if let Some(Json::S(q)) = entry.get("rust") {
             translated_quals.push(q.clone());
         }
+        if let Some(Json::A(v)) = entry.get("inlined_helpers") {
+            for j in v {
+                if let Json::S(q) = j {
+                    translated_quals.push(q.clone());
+                }
+            }
+        }
         entries.push(entry);
     }
     // accounting of everything else
